@@ -129,7 +129,7 @@ func checkC17(c *Ctx, r *Report) {
 	}
 
 	// R17b: bounds in package parse
-	r.Rule("R17b", "every index/slice operation of package parse that the compiler cannot prove is proved in bounds (E3, see C07 R07a)", 10)
+	r.Rule("R17b", "every index/slice operation of package parse that the compiler cannot prove is proved in bounds (E3, see C07 R07a)", 6)
 	sites := runBCE(c)
 	for _, fn := range c.SrcFuncs() {
 		if fn.Pkg != c.SSA["parse"] {
